@@ -117,6 +117,23 @@ func exploreSubtree(sc *Scenario, root []int, maxExecs int64, deadline time.Time
 		r, out, v := runOne(sc, prefix, false)
 		if strings.HasPrefix(r.Failure, "divergence") {
 			res.Infra = fmt.Sprintf("%s (prefix %v)", r.Failure, prefix)
+			if os.Getenv("VERIF_DIVERGE_DEBUG") != "" && len(prefix) > 0 {
+				for k := 0; k < 3; k++ {
+					r2, _, _ := runOne(sc, prefix[:len(prefix)-1], true)
+					i := len(prefix) - 1
+					n := -1
+					if i < len(r2.Points) {
+						n = r2.Points[i].NAlts
+					}
+					ev := r2.Events
+					fmt.Fprintf(os.Stderr, "DIVERGE-DEBUG rerun %d of the parent: decision %d has %d alternatives, %d points, %d events\n", k, i, n, len(r2.Points), len(ev))
+					for j, e := range ev {
+						if j >= i-12 && j <= i+3 {
+							fmt.Fprintf(os.Stderr, "   %d %s\n", j, e)
+						}
+					}
+				}
+			}
 			return res
 		}
 		res.Execs++
